@@ -36,35 +36,35 @@ import (
 	"golang.org/x/crypto/ssh/agent"
 )
 
-// ---- binding to the code under test (exported API only, except newShimAgent / pubKeyComp in kExecShim)
+// ---- binding to the code under test (exported API only, except newShimAgent / pubKeyComp in zvkExecShim)
 
-type kidT = keyid.KeyID
-type certType = certutil.Type
+type zvkKidT = keyid.KeyID
+type zvkCertType = certutil.Type
 
 const (
-	ctUnknown              = certutil.UnknownCertType
-	ctTouchSudo            = certutil.TouchSudoCert
-	ctTouchless            = certutil.TouchlessCert
-	ctTouchlessSudo        = certutil.TouchlessSudoCert
-	ctFirefighter          = certutil.FirefighterCert
-	ctNonce                = certutil.NonceCert
-	ctTouchlessInAgent     = certutil.TouchlessInAgentCert
-	ctTouchlessSudoInAgent = certutil.TouchlessSudoInAgentCert
+	zvkCtUnknown              = certutil.UnknownCertType
+	zvkCtTouchSudo            = certutil.TouchSudoCert
+	zvkCtTouchless            = certutil.TouchlessCert
+	zvkCtTouchlessSudo        = certutil.TouchlessSudoCert
+	zvkCtFirefighter          = certutil.FirefighterCert
+	zvkCtNonce                = certutil.NonceCert
+	zvkCtTouchlessInAgent     = certutil.TouchlessInAgentCert
+	zvkCtTouchlessSudoInAgent = certutil.TouchlessSudoInAgentCert
 )
 
-func kNewKid(prins []string, tid, ru, rip, rh string, ff, hw, hl, nonce bool, usage, tp int64, ver uint16) *kidT {
+func zvkNewKid(prins []string, tid, ru, rip, rh string, ff, hw, hl, nonce bool, usage, tp int64, ver uint16) *zvkKidT {
 	return &keyid.KeyID{Principals: prins, TransID: tid, ReqUser: ru, ReqIP: rip, ReqHost: rh, IsFirefighter: ff, IsHWKey: hw,
 		IsHeadless: hl, IsNonce: nonce, Usage: keyid.Usage(usage), TouchPolicy: keyid.TouchPolicy(tp), Version: ver}
 }
 
-func kUnmarshal(s string) (*kidT, error)             { return keyid.Unmarshal(s) }
-func kGetType(c *ssh.Certificate) certType           { return certutil.GetType(c) }
-func kLabel(c *ssh.Certificate) (string, error)      { return certutil.Label(c) }
-func kGetPrincipals(p []string, t certType) []string { return certutil.GetPrincipals(p, t) }
+func zvkUnmarshal(s string) (*zvkKidT, error)             { return keyid.Unmarshal(s) }
+func zvkGetType(c *ssh.Certificate) zvkCertType           { return certutil.GetType(c) }
+func zvkLabel(c *ssh.Certificate) (string, error)         { return certutil.Label(c) }
+func zvkGetPrincipals(p []string, t zvkCertType) []string { return certutil.GetPrincipals(p, t) }
 
 // ---- abstract vocabulary shared with KeyID.tla
 
-type kAbs struct {
+type zvkAbs struct {
 	Ff    bool `json:"ff"`
 	Hw    bool `json:"hw"`
 	Hl    bool `json:"hl"`
@@ -74,9 +74,9 @@ type kAbs struct {
 	Ver   int  `json:"ver"`
 }
 
-type kCase struct {
+type zvkCase struct {
 	Kind string `json:"kind"`
-	K    kAbs   `json:"k"`
+	K    zvkAbs `json:"k"`
 	F    string `json:"f"`
 	M    string `json:"m"`
 	V    int    `json:"v"`
@@ -88,10 +88,10 @@ type kCase struct {
 	Path string `json:"path"`
 }
 
-type kEvent struct {
+type zvkEvent struct {
 	Op      string   `json:"op"`
-	Cs      kCase    `json:"cs"`
-	K       kAbs     `json:"k"`
+	Cs      zvkCase  `json:"cs"`
+	K       zvkAbs   `json:"k"`
 	Sin     string   `json:"sin"`
 	Present []string `json:"present"`
 	Nil     bool     `json:"nil"`
@@ -102,7 +102,7 @@ type kEvent struct {
 	Pan     bool     `json:"pan"`
 	Ok      bool     `json:"ok"`
 	Dok     bool     `json:"dok"`
-	Dk      kAbs     `json:"dk"`
+	Dk      zvkAbs   `json:"dk"`
 	Sout    string   `json:"sout"`
 	Tid     string   `json:"tid"`
 	Ty      string   `json:"ty"`
@@ -113,7 +113,7 @@ type kEvent struct {
 	Cmt     string   `json:"cmt"`
 	Rep     int      `json:"rep"`
 	Ok1     bool     `json:"ok1"`
-	Dk1     kAbs     `json:"dk1"`
+	Dk1     zvkAbs   `json:"dk1"`
 	S1      string   `json:"s1"`
 	Pafter  []string `json:"pafter"`
 	Pfirst  []string `json:"pfirst"`
@@ -121,7 +121,7 @@ type kEvent struct {
 }
 
 // concrete KeyID contents (valid UTF-8 strings only, so plain JSON is faithful)
-type kKid struct {
+type zvkKid struct {
 	Principals []string `json:"prins"`
 	TransID    string   `json:"transID"`
 	ReqUser    string   `json:"reqUser"`
@@ -136,10 +136,10 @@ type kKid struct {
 	Ver        uint16   `json:"ver"`
 }
 
-// kInfo is the concrete input of one call; it is all that a replay needs.
-type kInfo struct {
+// zvkInfo is the concrete input of one call; it is all that a replay needs.
+type zvkInfo struct {
 	Op      string            `json:"op"`
-	Kid     *kKid             `json:"kid,omitempty"`  // enc
+	Kid     *zvkKid           `json:"kid,omitempty"`  // enc
 	Text    string            `json:"text,omitempty"` // hex of the KeyID text (dec, cert, shim)
 	Nil     bool              `json:"nil,omitempty"`  // cert: nil certificate
 	CritNil bool              `json:"critnil,omitempty"`
@@ -152,69 +152,69 @@ type kInfo struct {
 	Signed  bool              `json:"signed,omitempty"`
 }
 
-type kRec struct {
-	Ev   string  `json:"ev"`
-	Tid  string  `json:"tid"`
-	E    *kEvent `json:"e,omitempty"`
-	Info *kInfo  `json:"info,omitempty"`
+type zvkRec struct {
+	Ev   string    `json:"ev"`
+	Tid  string    `json:"tid"`
+	E    *zvkEvent `json:"e,omitempty"`
+	Info *zvkInfo  `json:"info,omitempty"`
 }
 
-type kReplay struct {
-	Cs   kCase `json:"cs"`
-	Info kInfo `json:"info"`
+type zvkReplay struct {
+	Cs   zvkCase `json:"cs"`
+	Info zvkInfo `json:"info"`
 }
 
-type kPlan struct {
-	Cases   []kCase        `json:"cases"`
+type zvkPlan struct {
+	Cases   []zvkCase      `json:"cases"`
 	Random  map[string]int `json:"random"`
-	Replays []kReplay      `json:"replays"`
+	Replays []zvkReplay    `json:"replays"`
 }
 
-var kFree = kCase{Kind: "free", Opt: "absent"}
+var zvkFree = zvkCase{Kind: "free", Opt: "absent"}
 
-var kAllFields = []string{"prins", "transID", "reqUser", "reqIP", "reqHost", "isFirefighter", "isHWKey", "isHeadless", "isNonce", "usage", "touchPolicy", "ver"}
+var zvkAllFields = []string{"prins", "transID", "reqUser", "reqIP", "reqHost", "isFirefighter", "isHWKey", "isHeadless", "isNonce", "usage", "touchPolicy", "ver"}
 
-func kIsStr(f string) bool {
+func zvkIsStr(f string) bool {
 	return f == "prins" || f == "transID" || f == "reqUser" || f == "reqIP" || f == "reqHost"
 }
-func kIsBool(f string) bool {
+func zvkIsBool(f string) bool {
 	return f == "isFirefighter" || f == "isHWKey" || f == "isHeadless" || f == "isNonce"
 }
 
-func kTypeName(t certType) string {
+func zvkTypeName(t zvkCertType) string {
 	switch t {
-	case ctUnknown:
+	case zvkCtUnknown:
 		return "Unknown"
-	case ctTouchSudo:
+	case zvkCtTouchSudo:
 		return "TouchSudo"
-	case ctTouchless:
+	case zvkCtTouchless:
 		return "Touchless"
-	case ctTouchlessSudo:
+	case zvkCtTouchlessSudo:
 		return "TouchlessSudo"
-	case ctFirefighter:
+	case zvkCtFirefighter:
 		return "Firefighter"
-	case ctNonce:
+	case zvkCtNonce:
 		return "Nonce"
-	case ctTouchlessInAgent:
+	case zvkCtTouchlessInAgent:
 		return "TouchlessInAgent"
-	case ctTouchlessSudoInAgent:
+	case zvkCtTouchlessSudoInAgent:
 		return "TouchlessSudoInAgent"
 	}
 	return "other"
 }
 
-func kTypeOfName(n string, r *mrand.Rand) certType {
-	for _, t := range []certType{ctUnknown, ctTouchSudo, ctTouchless, ctTouchlessSudo, ctFirefighter, ctNonce, ctTouchlessInAgent, ctTouchlessSudoInAgent} {
-		if kTypeName(t) == n {
+func zvkTypeOfName(n string, r *mrand.Rand) zvkCertType {
+	for _, t := range []zvkCertType{zvkCtUnknown, zvkCtTouchSudo, zvkCtTouchless, zvkCtTouchlessSudo, zvkCtFirefighter, zvkCtNonce, zvkCtTouchlessInAgent, zvkCtTouchlessSudoInAgent} {
+		if zvkTypeName(t) == n {
 			return t
 		}
 	}
-	return []certType{6, 9, -1, 1000}[r.Intn(4)]
+	return []zvkCertType{6, 9, -1, 1000}[r.Intn(4)]
 }
 
-// kEnc renders a byte string for TLC: [A-Za-z0-9:-] literally, every other byte as _XX.  It is a homomorphism for
+// zvkEnc renders a byte string for TLC: [A-Za-z0-9:-] literally, every other byte as _XX.  It is a homomorphism for
 // concatenation, so "label = name \o "SSH-" \o tid" in the spec is equality of bytes in the code.
-func kEnc(s string) string {
+func zvkEnc(s string) string {
 	var b strings.Builder
 	for i := 0; i < len(s); i++ {
 		c := s[i]
@@ -227,15 +227,15 @@ func kEnc(s string) string {
 	return b.String()
 }
 
-func kEncAll(xs []string) []string {
+func zvkEncAll(xs []string) []string {
 	o := make([]string, 0, len(xs))
 	for _, x := range xs {
-		o = append(o, kEnc(x))
+		o = append(o, zvkEnc(x))
 	}
 	return o
 }
 
-func kClamp(v int64) int {
+func zvkClamp(v int64) int {
 	if v > 1000000 {
 		return 1000001
 	}
@@ -245,13 +245,13 @@ func kClamp(v int64) int {
 	return int(v)
 }
 
-func kAbsOf(k *kidT) kAbs {
-	return kAbs{Ff: k.IsFirefighter, Hw: k.IsHWKey, Hl: k.IsHeadless, Nonce: k.IsNonce,
-		Tp: kClamp(int64(k.TouchPolicy)), Usage: kClamp(int64(k.Usage)), Ver: int(k.Version)}
+func zvkAbsOf(k *zvkKidT) zvkAbs {
+	return zvkAbs{Ff: k.IsFirefighter, Hw: k.IsHWKey, Hl: k.IsHeadless, Nonce: k.IsNonce,
+		Tp: zvkClamp(int64(k.TouchPolicy)), Usage: zvkClamp(int64(k.Usage)), Ver: int(k.Version)}
 }
 
-// kTag digests every concrete content of a KeyID (nil and empty principal lists differ).
-func kTag(k *kidT) string {
+// zvkTag digests every concrete content of a KeyID (nil and empty principal lists differ).
+func zvkTag(k *zvkKidT) string {
 	var b bytes.Buffer
 	if k.Principals == nil {
 		b.WriteString("nil")
@@ -264,18 +264,18 @@ func kTag(k *kidT) string {
 	return hex.EncodeToString(h[:8])
 }
 
-func (c *kKid) concrete() *kidT {
-	return kNewKid(c.Principals, c.TransID, c.ReqUser, c.ReqIP, c.ReqHost, c.Ff, c.Hw, c.Hl, c.Nonce, c.Usage, c.Tp, c.Ver)
+func (c *zvkKid) concrete() *zvkKidT {
+	return zvkNewKid(c.Principals, c.TransID, c.ReqUser, c.ReqIP, c.ReqHost, c.Ff, c.Hw, c.Hl, c.Nonce, c.Usage, c.Tp, c.Ver)
 }
 
 // ---- an own scan of a JSON text: ordered top-level members (duplicates kept), nothing if the text is not one object
 
-type kMember struct {
+type zvkMember struct {
 	Key string
 	Raw json.RawMessage
 }
 
-func kScan(text []byte) ([]kMember, bool) {
+func zvkScan(text []byte) ([]zvkMember, bool) {
 	if !json.Valid(text) {
 		return nil, false
 	}
@@ -287,7 +287,7 @@ func kScan(text []byte) ([]kMember, bool) {
 	if d, ok := tok.(json.Delim); !ok || d != '{' {
 		return nil, false
 	}
-	var ms []kMember
+	var ms []zvkMember
 	for dec.More() {
 		kt, err := dec.Token()
 		if err != nil {
@@ -301,19 +301,19 @@ func kScan(text []byte) ([]kMember, bool) {
 		if err := dec.Decode(&raw); err != nil {
 			return nil, false
 		}
-		ms = append(ms, kMember{key, raw})
+		ms = append(ms, zvkMember{key, raw})
 	}
 	return ms, true
 }
 
-// kPresent: which of the twelve field names the text contains as top-level member names (exact spelling).
-func kPresent(text string) []string {
+// zvkPresent: which of the twelve field names the text contains as top-level member names (exact spelling).
+func zvkPresent(text string) []string {
 	out := []string{}
-	ms, ok := kScan([]byte(text))
+	ms, ok := zvkScan([]byte(text))
 	if !ok {
 		return out
 	}
-	for _, f := range kAllFields {
+	for _, f := range zvkAllFields {
 		for _, m := range ms {
 			if m.Key == f {
 				out = append(out, f)
@@ -324,7 +324,7 @@ func kPresent(text string) []string {
 	return out
 }
 
-func kJoin(ms []kMember) string {
+func zvkJoin(ms []zvkMember) string {
 	var b bytes.Buffer
 	b.WriteByte('{')
 	for i, m := range ms {
@@ -342,11 +342,11 @@ func kJoin(ms []kMember) string {
 
 // ---- concrete material
 
-var kStrings = []string{"", "user", "üser-中文", `a"b\c`, "x\ny\tz", "<script>&amp;'", "  ", `{"ver":1}`, "null", "😀 grin",
+var zvkStrings = []string{"", "user", "üser-中文", `a"b\c`, "x\ny\tz", "<script>&amp;'", "  ", `{"ver":1}`, "null", "😀 grin",
 	"a,b:c", " lead trail ", "\x00\x01\x7f", "transID", `","isNonce":true,"x":"`, "22dde224", "C02XF22WJHD3", "10.1.2.3", "fe80::1%eth0",
 	"]}", "\\u0041", "ａｂｃ", "Ünïcödé-ПРИВЕТ-مرحبا", "TouchSudoSSH-", ":notouch", "-"}
 
-func kRandStr(r *mrand.Rand) string {
+func zvkRandStr(r *mrand.Rand) string {
 	switch r.Intn(4) {
 	case 0:
 		n := r.Intn(12)
@@ -370,11 +370,11 @@ func kRandStr(r *mrand.Rand) string {
 	case 1:
 		return fmt.Sprintf("%010x", r.Int63n(1<<40))
 	default:
-		return kStrings[r.Intn(len(kStrings))]
+		return zvkStrings[r.Intn(len(zvkStrings))]
 	}
 }
 
-func kRandPrins(r *mrand.Rand) []string {
+func zvkRandPrins(r *mrand.Rand) []string {
 	switch r.Intn(6) {
 	case 0:
 		return nil
@@ -384,41 +384,41 @@ func kRandPrins(r *mrand.Rand) []string {
 	n := 1 + r.Intn(3)
 	p := make([]string, n)
 	for i := range p {
-		p[i] = kRandStr(r)
+		p[i] = zvkRandStr(r)
 	}
 	return p
 }
 
-// kConcrete instantiates an abstract KeyID value with concrete strings.
-func kConcrete(a kAbs, r *mrand.Rand) *kKid {
-	return &kKid{Principals: kRandPrins(r), TransID: kRandStr(r), ReqUser: kRandStr(r), ReqIP: kRandStr(r), ReqHost: kRandStr(r),
+// zvkConcrete instantiates an abstract KeyID value with concrete strings.
+func zvkConcrete(a zvkAbs, r *mrand.Rand) *zvkKid {
+	return &zvkKid{Principals: zvkRandPrins(r), TransID: zvkRandStr(r), ReqUser: zvkRandStr(r), ReqIP: zvkRandStr(r), ReqHost: zvkRandStr(r),
 		Ff: a.Ff, Hw: a.Hw, Hl: a.Hl, Nonce: a.Nonce, Usage: int64(a.Usage), Tp: int64(a.Tp), Ver: uint16(a.Ver)}
 }
 
-// kOwnText writes the canonical text of a KeyID without using the encoder under test.
-func kOwnText(c *kKid) string {
+// zvkOwnText writes the canonical text of a KeyID without using the encoder under test.
+func zvkOwnText(c *zvkKid) string {
 	q := func(v interface{}) json.RawMessage { b, _ := json.Marshal(v); return b }
-	ms := []kMember{{"prins", q(c.Principals)}, {"transID", q(c.TransID)}, {"reqUser", q(c.ReqUser)}, {"reqIP", q(c.ReqIP)},
+	ms := []zvkMember{{"prins", q(c.Principals)}, {"transID", q(c.TransID)}, {"reqUser", q(c.ReqUser)}, {"reqIP", q(c.ReqIP)},
 		{"reqHost", q(c.ReqHost)}, {"isFirefighter", q(c.Ff)}, {"isHWKey", q(c.Hw)}, {"isHeadless", q(c.Hl)}, {"isNonce", q(c.Nonce)},
 		{"usage", q(c.Usage)}, {"touchPolicy", q(c.Tp)}, {"ver", q(c.Ver)}}
-	return kJoin(ms)
+	return zvkJoin(ms)
 }
 
-// kBaseText: the encoder's output when the encoder accepts the value, the own canonical text otherwise.
-func kBaseText(c *kKid) (s string) {
+// zvkBaseText: the encoder's output when the encoder accepts the value, the own canonical text otherwise.
+func zvkBaseText(c *zvkKid) (s string) {
 	defer func() {
 		if recover() != nil {
-			s = kOwnText(c)
+			s = zvkOwnText(c)
 		}
 	}()
 	out, err := c.concrete().Marshal()
 	if err != nil {
-		return kOwnText(c)
+		return zvkOwnText(c)
 	}
 	return out
 }
 
-func kRecase(f string, r *mrand.Rand) string {
+func zvkRecase(f string, r *mrand.Rand) string {
 	for i := 0; i < 20; i++ {
 		var v string
 		switch r.Intn(4) {
@@ -445,14 +445,14 @@ func kRecase(f string, r *mrand.Rand) string {
 	return strings.ToUpper(f)
 }
 
-func kWrongType(f string, r *mrand.Rand) string {
+func zvkWrongType(f string, r *mrand.Rand) string {
 	pick := func(xs ...string) string { return xs[r.Intn(len(xs))] }
 	switch {
 	case f == "prins":
 		return pick(`"a"`, `5`, `[1]`, `{"a":"b"}`, `[["a"]]`, `true`, `[null,2]`)
-	case kIsStr(f):
+	case zvkIsStr(f):
 		return pick(`5`, `true`, `{}`, `["a"]`, `1.5`, `{"a":"b"}`)
-	case kIsBool(f):
+	case zvkIsBool(f):
 		return pick(`"true"`, `"false"`, `1`, `0`, `[true]`, `{}`, `"x"`)
 	case f == "ver":
 		return pick(`"1"`, `1.5`, `true`, `[1]`, `{}`, `-1`, `65536`, `1e99`)
@@ -461,15 +461,15 @@ func kWrongType(f string, r *mrand.Rand) string {
 	}
 }
 
-func kValueRaw(f string, v int, r *mrand.Rand) json.RawMessage {
+func zvkValueRaw(f string, v int, r *mrand.Rand) json.RawMessage {
 	switch {
 	case f == "prins":
-		b, _ := json.Marshal(kRandPrins(r))
+		b, _ := json.Marshal(zvkRandPrins(r))
 		return b
-	case kIsStr(f):
-		b, _ := json.Marshal(kRandStr(r))
+	case zvkIsStr(f):
+		b, _ := json.Marshal(zvkRandStr(r))
 		return b
-	case kIsBool(f):
+	case zvkIsBool(f):
 		if v == 1 {
 			return json.RawMessage("true")
 		}
@@ -478,9 +478,9 @@ func kValueRaw(f string, v int, r *mrand.Rand) json.RawMessage {
 	return json.RawMessage(fmt.Sprintf("%d", v))
 }
 
-// kMutate applies one abstract mutation to the base text.
-func kMutate(base string, f, m string, v int, r *mrand.Rand) string {
-	ms, ok := kScan([]byte(base))
+// zvkMutate applies one abstract mutation to the base text.
+func zvkMutate(base string, f, m string, v int, r *mrand.Rand) string {
+	ms, ok := zvkScan([]byte(base))
 	if !ok {
 		panic("verif: base text is not an object: " + base)
 	}
@@ -497,32 +497,32 @@ func kMutate(base string, f, m string, v int, r *mrand.Rand) string {
 	case "delete":
 		ms = append(ms[:idx:idx], ms[idx+1:]...)
 	case "rename":
-		ms[idx].Key = kRecase(f, r)
+		ms[idx].Key = zvkRecase(f, r)
 	case "retype":
-		ms[idx].Raw = json.RawMessage(kWrongType(f, r))
+		ms[idx].Raw = json.RawMessage(zvkWrongType(f, r))
 	case "null":
 		ms[idx].Raw = json.RawMessage("null")
 	case "dup":
 		// a second occurrence AFTER the original (the last one is read)
 		at := idx + 1 + r.Intn(len(ms)-idx)
-		nm := kMember{f, kValueRaw(f, v, r)}
-		ms = append(ms[:at:at], append([]kMember{nm}, ms[at:]...)...)
+		nm := zvkMember{f, zvkValueRaw(f, v, r)}
+		ms = append(ms[:at:at], append([]zvkMember{nm}, ms[at:]...)...)
 	default:
 		panic("verif: unknown mutation " + m)
 	}
-	return kJoin(ms)
+	return zvkJoin(ms)
 }
 
-func kValidAbs(r *mrand.Rand) kAbs {
-	good := []kAbs{{Tp: 1, Ver: 1}, {Hw: true, Tp: 2, Ver: 1}, {Hw: true, Tp: 3, Ver: 1}, {Ff: true, Hw: true, Tp: 3, Ver: 1}, {Ff: true, Tp: 1, Ver: 1},
+func zvkValidAbs(r *mrand.Rand) zvkAbs {
+	good := []zvkAbs{{Tp: 1, Ver: 1}, {Hw: true, Tp: 2, Ver: 1}, {Hw: true, Tp: 3, Ver: 1}, {Ff: true, Hw: true, Tp: 3, Ver: 1}, {Ff: true, Tp: 1, Ver: 1},
 		{Nonce: true, Tp: 1, Ver: 1}, {Nonce: true, Hw: true, Tp: 1, Ver: 1}, {Hl: true, Tp: 1, Ver: 1}, {Hw: true, Tp: 0, Ver: 1}, {Tp: 4, Ver: 1}, {Ff: true, Tp: 0, Ver: 1}}
 	a := good[r.Intn(len(good))]
 	a.Usage = r.Intn(3)
 	return a
 }
 
-func kJunk(j string, r *mrand.Rand) string {
-	valid := kBaseText(kConcrete(kValidAbs(r), r))
+func zvkJunk(j string, r *mrand.Rand) string {
+	valid := zvkBaseText(zvkConcrete(zvkValidAbs(r), r))
 	pick := func(xs ...string) string { return xs[r.Intn(len(xs))] }
 	switch j {
 	case "null":
@@ -566,7 +566,7 @@ func kJunk(j string, r *mrand.Rand) string {
 	panic("verif: unknown junk kind " + j)
 }
 
-func kCrit(opt string, r *mrand.Rand) (m map[string]string, isnil bool) {
+func zvkCrit(opt string, r *mrand.Rand) (m map[string]string, isnil bool) {
 	const name = "touchless-sudo-hosts"
 	switch opt {
 	case "absent":
@@ -587,7 +587,7 @@ func kCrit(opt string, r *mrand.Rand) (m map[string]string, isnil bool) {
 	return map[string]string{name: []string{"host1.example", "h1,h2", "*", " ", "0", "ünï"}[r.Intn(6)]}, false
 }
 
-func kOptClass(info *kInfo) string {
+func zvkOptClass(info *zvkInfo) string {
 	if info.CritNil || info.Crit == nil {
 		return "absent"
 	}
@@ -603,32 +603,32 @@ func kOptClass(info *kInfo) string {
 
 // ---- instantiate a case
 
-func kInstantiate(c kCase, r *mrand.Rand) kInfo {
+func zvkInstantiate(c zvkCase, r *mrand.Rand) zvkInfo {
 	switch c.Kind {
 	case "enc":
-		return kInfo{Op: "enc", Kid: kConcrete(c.K, r)}
+		return zvkInfo{Op: "enc", Kid: zvkConcrete(c.K, r)}
 	case "dec":
-		return kInfo{Op: "dec", Text: hex.EncodeToString([]byte(kBaseText(kConcrete(c.K, r))))}
+		return zvkInfo{Op: "dec", Text: hex.EncodeToString([]byte(zvkBaseText(zvkConcrete(c.K, r))))}
 	case "mut":
-		return kInfo{Op: "dec", Text: hex.EncodeToString([]byte(kMutate(kBaseText(kConcrete(c.K, r)), c.F, c.M, c.V, r)))}
+		return zvkInfo{Op: "dec", Text: hex.EncodeToString([]byte(zvkMutate(zvkBaseText(zvkConcrete(c.K, r)), c.F, c.M, c.V, r)))}
 	case "junk":
-		return kInfo{Op: "dec", Text: hex.EncodeToString([]byte(kJunk(c.J, r)))}
+		return zvkInfo{Op: "dec", Text: hex.EncodeToString([]byte(zvkJunk(c.J, r)))}
 	case "cert", "certjunk", "shim":
 		var text string
 		if c.Kind == "certjunk" {
-			text = kJunk(c.J, r)
+			text = zvkJunk(c.J, r)
 		} else {
-			text = kBaseText(kConcrete(c.K, r))
+			text = zvkBaseText(zvkConcrete(c.K, r))
 		}
-		crit, cn := kCrit(c.Opt, r)
-		info := kInfo{Op: "cert", Text: hex.EncodeToString([]byte(text)), Crit: crit, CritNil: cn, Prins: kRandPrins(r), Signed: r.Intn(8) == 0}
+		crit, cn := zvkCrit(c.Opt, r)
+		info := zvkInfo{Op: "cert", Text: hex.EncodeToString([]byte(text)), Crit: crit, CritNil: cn, Prins: zvkRandPrins(r), Signed: r.Intn(8) == 0}
 		info.PrNil = info.Prins == nil
 		if c.Kind == "shim" {
 			info.Op = "shim"
 			info.Path = c.Path
 			info.Signed = true
 			if c.Cm == "some" {
-				s := kRandStr(r)
+				s := zvkRandStr(r)
 				if s == "" {
 					s = "my key"
 				}
@@ -637,13 +637,13 @@ func kInstantiate(c kCase, r *mrand.Rand) kInfo {
 		}
 		return info
 	case "nil":
-		return kInfo{Op: "cert", Nil: true, PrNil: true}
+		return zvkInfo{Op: "cert", Nil: true, PrNil: true}
 	case "prins":
 		p := make([]string, c.N)
 		for i := range p {
-			p[i] = kRandStr(r)
+			p[i] = zvkRandStr(r)
 		}
-		info := kInfo{Op: "prins", Ty: int(kTypeOfName(c.Ty, r)), Prins: p}
+		info := zvkInfo{Op: "prins", Ty: int(zvkTypeOfName(c.Ty, r)), Prins: p}
 		if c.N == 0 && r.Intn(2) == 0 {
 			info.Prins, info.PrNil = nil, true
 		}
@@ -654,12 +654,12 @@ func kInstantiate(c kCase, r *mrand.Rand) kInfo {
 
 // ---- execute
 
-func kNewEvent(op string, cs kCase) *kEvent {
-	return &kEvent{Op: op, Cs: cs, Present: []string{}, Opt: "absent", Pin: []string{}, Pout: []string{},
+func zvkNewEvent(op string, cs zvkCase) *zvkEvent {
+	return &zvkEvent{Op: op, Cs: cs, Present: []string{}, Opt: "absent", Pin: []string{}, Pout: []string{},
 		Pafter: []string{}, Pfirst: []string{}, Pfirst2: []string{}}
 }
 
-func kText(info *kInfo) string {
+func zvkText(info *zvkInfo) string {
 	b, err := hex.DecodeString(info.Text)
 	if err != nil {
 		panic(err)
@@ -667,20 +667,20 @@ func kText(info *kInfo) string {
 	return string(b)
 }
 
-// kDecode observes keyid.Unmarshal on a text.
-func kDecode(text string) (ok bool, k *kidT, pan bool) {
+// zvkDecode observes keyid.Unmarshal on a text.
+func zvkDecode(text string) (ok bool, k *zvkKidT, pan bool) {
 	defer func() {
 		if recover() != nil {
 			ok, k, pan = false, nil, true
 		}
 	}()
-	kk, err := kUnmarshal(text)
+	kk, err := zvkUnmarshal(text)
 	return err == nil, kk, false
 }
 
-// kScramble overwrites every field of a KeyID the code under test handed out (a caller may do with its result what it
+// zvkScramble overwrites every field of a KeyID the code under test handed out (a caller may do with its result what it
 // likes): the elements of the principal list in place, then the list itself, every string, flag and number.
-func kScramble(k *kidT) {
+func zvkScramble(k *zvkKidT) {
 	if k == nil {
 		return
 	}
@@ -695,27 +695,27 @@ func kScramble(k *kidT) {
 	k.Version = 7
 }
 
-type kObs struct {
+type zvkObs struct {
 	ok, pan  bool
-	dk       kAbs
+	dk       zvkAbs
 	tag, tid string
 }
 
-func kObserveDecode(text string) (o kObs, k *kidT) {
-	ok, k2, pan := kDecode(text)
+func zvkObserveDecode(text string) (o zvkObs, k *zvkKidT) {
+	ok, k2, pan := zvkDecode(text)
 	o.ok, o.pan = ok, pan
 	if ok && k2 != nil {
-		o.dk, o.tag, o.tid = kAbsOf(k2), kTag(k2), kEnc(k2.TransID)
+		o.dk, o.tag, o.tid = zvkAbsOf(k2), zvkTag(k2), zvkEnc(k2.TransID)
 	}
 	return o, k2
 }
 
-// kExecEnc encodes the value (in the object obj when given: the same object is reused, overwritten, across calls) and decodes
+// zvkExecEnc encodes the value (in the object obj when given: the same object is reused, overwritten, across calls) and decodes
 // the produced text `calls` times, scrambling every returned KeyID before the next call.  One event per decode.
-func kExecEnc(cs kCase, info *kInfo, obj *kidT, calls int) []*kEvent {
-	e := kNewEvent("enc", cs)
+func zvkExecEnc(cs zvkCase, info *zvkInfo, obj *zvkKidT, calls int) []*zvkEvent {
+	e := zvkNewEvent("enc", cs)
 	orig := info.Kid.concrete()
-	e.K, e.Sin = kAbsOf(orig), kTag(orig)
+	e.K, e.Sin = zvkAbsOf(orig), zvkTag(orig)
 	var text string
 	func() {
 		defer func() {
@@ -732,9 +732,9 @@ func kExecEnc(cs kCase, info *kInfo, obj *kidT, calls int) []*kEvent {
 		e.Ok = err == nil
 		text = s
 	}()
-	out := []*kEvent{e}
+	out := []*zvkEvent{e}
 	if e.Ok && !e.Pan {
-		e.Present = kPresent(text)
+		e.Present = zvkPresent(text)
 		for j := 0; j < calls; j++ {
 			ej := e
 			if j > 0 {
@@ -743,60 +743,60 @@ func kExecEnc(cs kCase, info *kInfo, obj *kidT, calls int) []*kEvent {
 				ej.Rep = j
 				out = append(out, ej)
 			}
-			o, k2 := kObserveDecode(text)
+			o, k2 := zvkObserveDecode(text)
 			ej.Pan, ej.Dok, ej.Dk, ej.Sout, ej.Tid = o.pan, o.ok, o.dk, o.tag, o.tid
-			kScramble(k2)
+			zvkScramble(k2)
 		}
 	}
 	return out
 }
 
-// kExecDec decodes the text `calls` times, scrambling every returned KeyID before the next call.  One event per call; the
+// zvkExecDec decodes the text `calls` times, scrambling every returned KeyID before the next call.  One event per call; the
 // events of later calls carry what the first call produced.
-func kExecDec(cs kCase, info *kInfo, calls int) []*kEvent {
-	text := kText(info)
-	present := kPresent(text)
-	var first kObs
-	var out []*kEvent
+func zvkExecDec(cs zvkCase, info *zvkInfo, calls int) []*zvkEvent {
+	text := zvkText(info)
+	present := zvkPresent(text)
+	var first zvkObs
+	var out []*zvkEvent
 	for j := 0; j < calls; j++ {
-		e := kNewEvent("dec", cs)
+		e := zvkNewEvent("dec", cs)
 		e.Present = present
-		o, k2 := kObserveDecode(text)
+		o, k2 := zvkObserveDecode(text)
 		if j == 0 {
 			first = o
 		}
 		e.Ok, e.Pan, e.Dk, e.Sout, e.Tid = o.ok, o.pan, o.dk, o.tag, o.tid
 		e.Rep, e.Ok1, e.Dk1, e.S1 = j, first.ok, first.dk, first.tag
-		kScramble(k2)
+		zvkScramble(k2)
 		out = append(out, e)
 	}
 	return out
 }
 
-// kExecDecConc: one reference decode, then the same text decoded from several goroutines at once (each scrambles its result).
-func kExecDecConc(cs kCase, info *kInfo, workers int) []*kEvent {
-	text := kText(info)
-	present := kPresent(text)
-	first, k0 := kObserveDecode(text)
-	mk := func(o kObs, rep int) *kEvent {
-		e := kNewEvent("dec", cs)
+// zvkExecDecConc: one reference decode, then the same text decoded from several goroutines at once (each scrambles its result).
+func zvkExecDecConc(cs zvkCase, info *zvkInfo, workers int) []*zvkEvent {
+	text := zvkText(info)
+	present := zvkPresent(text)
+	first, k0 := zvkObserveDecode(text)
+	mk := func(o zvkObs, rep int) *zvkEvent {
+		e := zvkNewEvent("dec", cs)
 		e.Present = present
 		e.Ok, e.Pan, e.Dk, e.Sout, e.Tid = o.ok, o.pan, o.dk, o.tag, o.tid
 		e.Rep, e.Ok1, e.Dk1, e.S1 = rep, first.ok, first.dk, first.tag
 		return e
 	}
-	out := []*kEvent{mk(first, 0)}
-	kScramble(k0)
-	res := make([][]*kEvent, workers)
+	out := []*zvkEvent{mk(first, 0)}
+	zvkScramble(k0)
+	res := make([][]*zvkEvent, workers)
 	var wg sync.WaitGroup
 	for w := 0; w < workers; w++ {
 		wg.Add(1)
 		go func(w int) {
 			defer wg.Done()
 			for j := 0; j < 2; j++ {
-				o, k2 := kObserveDecode(text)
+				o, k2 := zvkObserveDecode(text)
 				res[w] = append(res[w], mk(o, 1+w*2+j))
-				kScramble(k2)
+				zvkScramble(k2)
 			}
 		}(w)
 	}
@@ -807,10 +807,10 @@ func kExecDecConc(cs kCase, info *kInfo, workers int) []*kEvent {
 	return out
 }
 
-var kCA = verifh.GenKey("keyid-ca", "ed25519")
-var kUserKey = verifh.GenKey("keyid-user", "ed25519")
+var zvkCA = verifh.GenKey("keyid-ca", "ed25519")
+var zvkUserKey = verifh.GenKey("keyid-user", "ed25519")
 
-func kBuildCert(info *kInfo, serial uint64) *ssh.Certificate {
+func zvkBuildCert(info *zvkInfo, serial uint64) *ssh.Certificate {
 	if info.Nil {
 		return nil
 	}
@@ -824,63 +824,63 @@ func kBuildCert(info *kInfo, serial uint64) *ssh.Certificate {
 	}
 	if info.Signed {
 		now := uint64(time.Now().Unix())
-		return verifh.Mint(kCA.Signer, verifh.CertSpec{Key: kUserKey.Pub, KeyID: kText(info), ValidAfter: now - 3600, ValidBefore: now + 86400,
+		return verifh.Mint(zvkCA.Signer, verifh.CertSpec{Key: zvkUserKey.Pub, KeyID: zvkText(info), ValidAfter: now - 3600, ValidBefore: now + 86400,
 			Principals: prins, Serial: serial, CritOpts: crit})
 	}
-	return &ssh.Certificate{Key: kUserKey.Pub, Serial: serial, CertType: ssh.UserCert, KeyId: kText(info), ValidPrincipals: prins,
+	return &ssh.Certificate{Key: zvkUserKey.Pub, Serial: serial, CertType: ssh.UserCert, KeyId: zvkText(info), ValidPrincipals: prins,
 		Permissions: ssh.Permissions{CriticalOptions: crit}}
 }
 
-func kObserveKeyID(e *kEvent, crt *ssh.Certificate) {
+func zvkObserveKeyID(e *zvkEvent, crt *ssh.Certificate) {
 	if crt == nil {
 		return
 	}
-	ok, k2, pan := kDecode(crt.KeyId)
+	ok, k2, pan := zvkDecode(crt.KeyId)
 	e.Ok = ok
 	_ = pan // a crash of the decoder is C05's business; GetType's own call is observed below
 	if ok && k2 != nil {
-		e.Dk, e.Tid = kAbsOf(k2), kEnc(k2.TransID)
+		e.Dk, e.Tid = zvkAbsOf(k2), zvkEnc(k2.TransID)
 	}
 }
 
-func kExecCert(cs kCase, info *kInfo) *kEvent {
-	e := kNewEvent("cert", cs)
+func zvkExecCert(cs zvkCase, info *zvkInfo) *zvkEvent {
+	e := zvkNewEvent("cert", cs)
 	e.Nil = info.Nil
-	crt := kBuildCert(info, 1)
+	crt := zvkBuildCert(info, 1)
 	if crt != nil {
 		// what the certificate object carries (a signed certificate went through marshal + parse)
-		obs := kInfo{Crit: crt.CriticalOptions, CritNil: crt.CriticalOptions == nil}
-		e.Opt = kOptClass(&obs)
-		e.Pin = kEncAll(crt.ValidPrincipals)
+		obs := zvkInfo{Crit: crt.CriticalOptions, CritNil: crt.CriticalOptions == nil}
+		e.Opt = zvkOptClass(&obs)
+		e.Pin = zvkEncAll(crt.ValidPrincipals)
 	}
-	kObserveKeyID(e, crt)
+	zvkObserveKeyID(e, crt)
 	func() {
 		defer func() {
 			if recover() != nil {
 				e.Pan = true
 			}
 		}()
-		ty := kGetType(crt)
-		e.Ty = kTypeName(ty)
-		lab, err := kLabel(crt)
+		ty := zvkGetType(crt)
+		e.Ty = zvkTypeName(ty)
+		lab, err := zvkLabel(crt)
 		e.Lok = err == nil
 		if err == nil {
-			e.Label = kEnc(lab)
+			e.Label = zvkEnc(lab)
 		}
 		var pin []string
 		if crt != nil {
 			pin = crt.ValidPrincipals
 		}
-		e.Pout = kEncAll(kGetPrincipals(pin, ty))
-		e.Pafter = kEncAll(pin)
+		e.Pout = zvkEncAll(zvkGetPrincipals(pin, ty))
+		e.Pafter = zvkEncAll(pin)
 	}()
 	return e
 }
 
-// kExecPrins calls GetPrincipals twice with the same list (the caller's slice, with spare capacity behind it) and records for
+// zvkExecPrins calls GetPrincipals twice with the same list (the caller's slice, with spare capacity behind it) and records for
 // each call the result, the contents of the caller's list afterwards, and whether the first result still reads the same.
-func kExecPrins(cs kCase, info *kInfo) []*kEvent {
-	ty := certType(info.Ty)
+func zvkExecPrins(cs zvkCase, info *zvkInfo) []*zvkEvent {
+	ty := zvkCertType(info.Ty)
 	pin := info.Prins
 	if info.PrNil {
 		pin = nil
@@ -890,38 +890,38 @@ func kExecPrins(cs kCase, info *kInfo) []*kEvent {
 		in = make([]string, len(pin), len(pin)+(len(pin)%2)*3)
 		copy(in, pin)
 	}
-	var out []*kEvent
+	var out []*zvkEvent
 	var firstRes, firstSnap []string
 	for j := 0; j < 2; j++ {
-		e := kNewEvent("prins", cs)
-		e.Tyin, e.Pin, e.Rep = kTypeName(ty), kEncAll(pin), j
+		e := zvkNewEvent("prins", cs)
+		e.Tyin, e.Pin, e.Rep = zvkTypeName(ty), zvkEncAll(pin), j
 		func() {
 			defer func() {
 				if recover() != nil {
 					e.Pan = true
 				}
 			}()
-			res := kGetPrincipals(in, ty)
-			e.Pout = kEncAll(res)
-			e.Pafter = kEncAll(in)
+			res := zvkGetPrincipals(in, ty)
+			e.Pout = zvkEncAll(res)
+			e.Pafter = zvkEncAll(in)
 			if j == 0 {
 				firstRes, firstSnap = res, e.Pout
 			}
-			e.Pfirst, e.Pfirst2 = firstSnap, kEncAll(firstRes)
+			e.Pfirst, e.Pfirst2 = firstSnap, zvkEncAll(firstRes)
 		}()
 		out = append(out, e)
 	}
 	return out
 }
 
-type kShimJob struct {
-	cs   kCase
-	info *kInfo
+type zvkShimJob struct {
+	cs   zvkCase
+	info *zvkInfo
 	tid  string
 }
 
-// kExecShim lists a batch of certificates through one real shim agent over a real x/crypto keyring.
-func kExecShim(t *testing.T, jobs []kShimJob) []*kEvent {
+// zvkExecShim lists a batch of certificates through one real shim agent over a real x/crypto keyring.
+func zvkExecShim(t *testing.T, jobs []zvkShimJob) []*zvkEvent {
 	kr := agent.NewKeyring()
 	c1, c2 := net.Pipe()
 	go func() {
@@ -934,22 +934,22 @@ func kExecShim(t *testing.T, jobs []kShimJob) []*kEvent {
 	}
 	defer srv.Close()
 	srv.pubKeyComp = func(x, y ssh.PublicKey) bool { return bytes.Compare(x.Marshal(), y.Marshal()) < 0 }
-	if err := kr.Add(agent.AddedKey{PrivateKey: kUserKey.Priv, Comment: "plain key"}); err != nil {
+	if err := kr.Add(agent.AddedKey{PrivateKey: zvkUserKey.Priv, Comment: "plain key"}); err != nil {
 		t.Fatalf("verif: keyring add: %v", err)
 	}
-	evs := make([]*kEvent, len(jobs))
+	evs := make([]*zvkEvent, len(jobs))
 	blobs := make([]string, len(jobs))
 	for i, j := range jobs {
-		e := kNewEvent("shim", j.cs)
+		e := zvkNewEvent("shim", j.cs)
 		evs[i] = e
-		crt := kBuildCert(j.info, uint64(i+1))
+		crt := zvkBuildCert(j.info, uint64(i+1))
 		blobs[i] = string(crt.Marshal())
-		obs := kInfo{Crit: crt.CriticalOptions, CritNil: crt.CriticalOptions == nil}
-		e.Opt = kOptClass(&obs)
-		e.Pin = kEncAll(crt.ValidPrincipals)
+		obs := zvkInfo{Crit: crt.CriticalOptions, CritNil: crt.CriticalOptions == nil}
+		e.Opt = zvkOptClass(&obs)
+		e.Pin = zvkEncAll(crt.ValidPrincipals)
 		cb, _ := hex.DecodeString(j.info.Cmt)
-		e.Ocmt = kEnc(string(cb))
-		kObserveKeyID(e, crt)
+		e.Ocmt = zvkEnc(string(cb))
+		zvkObserveKeyID(e, crt)
 		if j.info.Path == "hard" {
 			func() {
 				defer func() {
@@ -962,7 +962,7 @@ func kExecShim(t *testing.T, jobs []kShimJob) []*kEvent {
 				}
 			}()
 		} else {
-			if err := kr.Add(agent.AddedKey{PrivateKey: kUserKey.Priv, Certificate: crt, Comment: string(cb)}); err != nil {
+			if err := kr.Add(agent.AddedKey{PrivateKey: zvkUserKey.Priv, Certificate: crt, Comment: string(cb)}); err != nil {
 				t.Fatalf("verif: keyring add: %v", err)
 			}
 		}
@@ -991,7 +991,7 @@ func kExecShim(t *testing.T, jobs []kShimJob) []*kEvent {
 		e.Pan = e.Pan || pan
 		if seen[blobs[i]] {
 			e.Found = true
-			e.Cmt = kEnc(byBlob[blobs[i]])
+			e.Cmt = zvkEnc(byBlob[blobs[i]])
 		} else if !pan {
 			t.Fatalf("verif: a valid certificate added to the agent was not listed (job %s)", jobs[i].tid)
 		}
@@ -1001,17 +1001,17 @@ func kExecShim(t *testing.T, jobs []kShimJob) []*kEvent {
 
 // ---- random drivers (direction B)
 
-func kRandAbs(r *mrand.Rand) kKid {
+func zvkRandAbs(r *mrand.Rand) zvkKid {
 	tps := []int64{-1, 0, 1, 1, 1, 2, 3, 4, 7, -5, 1 << 40, -(1 << 40)}
 	us := []int64{0, 0, 1, 2, -1, 99, 1 << 33}
 	vs := []uint16{0, 1, 1, 1, 1, 2, 3, 65535}
-	k := kKid{Principals: kRandPrins(r), TransID: kRandStr(r), ReqUser: kRandStr(r), ReqIP: kRandStr(r), ReqHost: kRandStr(r),
+	k := zvkKid{Principals: zvkRandPrins(r), TransID: zvkRandStr(r), ReqUser: zvkRandStr(r), ReqIP: zvkRandStr(r), ReqHost: zvkRandStr(r),
 		Ff: r.Intn(3) == 0, Hw: r.Intn(2) == 0, Hl: r.Intn(4) == 0, Nonce: r.Intn(4) == 0,
 		Usage: us[r.Intn(len(us))], Tp: tps[r.Intn(len(tps))], Ver: vs[r.Intn(len(vs))]}
 	return k
 }
 
-func kRandJSON(r *mrand.Rand, depth int) string {
+func zvkRandJSON(r *mrand.Rand, depth int) string {
 	switch n := r.Intn(9); {
 	case n == 0:
 		return "null"
@@ -1020,68 +1020,68 @@ func kRandJSON(r *mrand.Rand, depth int) string {
 	case n == 2:
 		return []string{"0", "1", "-1", "2", "3", "1.5", "1e3", "65536", "-0", "99999999999999999999"}[r.Intn(10)]
 	case n == 3:
-		b, _ := json.Marshal(kRandStr(r))
+		b, _ := json.Marshal(zvkRandStr(r))
 		return string(b)
 	case n <= 5 && depth > 0:
 		k := r.Intn(4)
 		xs := make([]string, k)
 		for i := range xs {
-			xs[i] = kRandJSON(r, depth-1)
+			xs[i] = zvkRandJSON(r, depth-1)
 		}
 		return "[" + strings.Join(xs, ",") + "]"
 	case depth > 0:
 		k := r.Intn(5)
 		xs := make([]string, k)
 		for i := range xs {
-			name := kRandStr(r)
+			name := zvkRandStr(r)
 			if r.Intn(2) == 0 {
-				name = kAllFields[r.Intn(len(kAllFields))]
+				name = zvkAllFields[r.Intn(len(zvkAllFields))]
 			}
 			nb, _ := json.Marshal(name)
-			xs[i] = string(nb) + ":" + kRandJSON(r, depth-1)
+			xs[i] = string(nb) + ":" + zvkRandJSON(r, depth-1)
 		}
 		return "{" + strings.Join(xs, ",") + "}"
 	}
 	return "7"
 }
 
-// kGrammarObject: an object over the KeyID field names with random presence, spelling, multiplicity, order and value types.
-func kGrammarObject(r *mrand.Rand) string {
-	k := kRandAbs(r)
+// zvkGrammarObject: an object over the KeyID field names with random presence, spelling, multiplicity, order and value types.
+func zvkGrammarObject(r *mrand.Rand) string {
+	k := zvkRandAbs(r)
 	if r.Intn(2) == 0 {
 		k.Ver = 1
 	}
-	ms, _ := kScan([]byte(kOwnText(&k)))
-	var out []kMember
+	ms, _ := zvkScan([]byte(zvkOwnText(&k)))
+	var out []zvkMember
 	for _, m := range ms {
 		p := r.Intn(20)
 		switch {
 		case p == 0:
 			continue // absent
 		case p == 1:
-			m.Key = kRecase(m.Key, r)
+			m.Key = zvkRecase(m.Key, r)
 		case p == 2:
-			m.Raw = json.RawMessage(kWrongType(m.Key, r))
+			m.Raw = json.RawMessage(zvkWrongType(m.Key, r))
 		case p == 3:
 			m.Raw = json.RawMessage("null")
 		case p == 4:
 			v := r.Intn(4)
-			out = append(out, kMember{m.Key, kValueRaw(m.Key, v, r)})
+			out = append(out, zvkMember{m.Key, zvkValueRaw(m.Key, v, r)})
 		case p == 5:
-			out = append(out, kMember{kRecase(m.Key, r), kValueRaw(m.Key, r.Intn(3), r)})
+			out = append(out, zvkMember{zvkRecase(m.Key, r), zvkValueRaw(m.Key, r.Intn(3), r)})
 		case p == 6:
-			nb, _ := json.Marshal(kRandStr(r))
-			out = append(out, kMember{kRandStr(r), nb})
+			nb, _ := json.Marshal(zvkRandStr(r))
+			out = append(out, zvkMember{zvkRandStr(r), nb})
 		}
 		out = append(out, m)
 	}
 	if r.Intn(3) == 0 {
 		r.Shuffle(len(out), func(i, j int) { out[i], out[j] = out[j], out[i] })
 	}
-	return kJoin(out)
+	return zvkJoin(out)
 }
 
-func kByteEdit(s string, r *mrand.Rand) string {
+func zvkByteEdit(s string, r *mrand.Rand) string {
 	b := []byte(s)
 	for n := 1 + r.Intn(3); n > 0 && len(b) > 0; n-- {
 		i := r.Intn(len(b))
@@ -1104,18 +1104,18 @@ func kByteEdit(s string, r *mrand.Rand) string {
 	return string(b)
 }
 
-func kRandText(r *mrand.Rand) string {
+func zvkRandText(r *mrand.Rand) string {
 	valid := func() string {
-		k := kConcrete(kValidAbs(r), r)
-		return kBaseText(k)
+		k := zvkConcrete(zvkValidAbs(r), r)
+		return zvkBaseText(k)
 	}
 	switch n := r.Intn(20); {
 	case n < 6:
-		return kByteEdit(valid(), r)
+		return zvkByteEdit(valid(), r)
 	case n < 11:
-		return kGrammarObject(r)
+		return zvkGrammarObject(r)
 	case n < 13:
-		return kRandJSON(r, 3)
+		return zvkRandJSON(r, 3)
 	case n < 15:
 		b := make([]byte, r.Intn(120))
 		r.Read(b)
@@ -1129,15 +1129,15 @@ func kRandText(r *mrand.Rand) string {
 	case n == 17:
 		// escaped member names and values: still the same members
 		s := valid()
-		f := kAllFields[r.Intn(len(kAllFields))]
+		f := zvkAllFields[r.Intn(len(zvkAllFields))]
 		esc := ""
 		for _, c := range f {
 			esc += fmt.Sprintf("\\u%04x", c)
 		}
 		return strings.Replace(s, `"`+f+`":`, `"`+esc+`":`, 1)
 	case n == 18:
-		k := kRandAbs(r)
-		return kOwnText(&k)
+		k := zvkRandAbs(r)
+		return zvkOwnText(&k)
 	}
 	return valid()
 }
@@ -1149,7 +1149,7 @@ func TestVerifKeyID(t *testing.T) {
 	if planPath == "" || outPath == "" {
 		t.Skip("VERIF_PLAN / VERIF_OUT not set")
 	}
-	var plan kPlan
+	var plan zvkPlan
 	pb, err := os.ReadFile(planPath)
 	if err != nil {
 		t.Fatal(err)
@@ -1162,11 +1162,11 @@ func TestVerifKeyID(t *testing.T) {
 		t.Fatal(err)
 	}
 	defer tr.Close()
-	tr.Emit(kRec{Ev: "reset", Tid: "keyid"})
+	tr.Emit(zvkRec{Ev: "reset", Tid: "keyid"})
 	counts := map[string]int{}
 	okCount, distinct := 0, map[string]bool{}
-	emit := func(tid string, e *kEvent, info *kInfo) {
-		tr.Emit(kRec{Ev: "step", Tid: tid, E: e, Info: info})
+	emit := func(tid string, e *zvkEvent, info *zvkInfo) {
+		tr.Emit(zvkRec{Ev: "step", Tid: tid, E: e, Info: info})
 		counts[e.Op]++
 		if e.Ok {
 			okCount++
@@ -1174,7 +1174,7 @@ func TestVerifKeyID(t *testing.T) {
 		distinct[fmt.Sprintf("%s|%v|%v|%v|%s|%v|%s|%s|%v|%s|%s", e.Op, e.Ok, e.Dk, e.Present, e.Ty, e.Lok, e.Opt, e.Tyin, e.K, e.Cs.M, e.Cs.F)] = true
 	}
 	// the event of call number `main` carries the case's tid, the other calls tid.<n>
-	emitAll := func(tid string, main int, evs []*kEvent, info *kInfo) {
+	emitAll := func(tid string, main int, evs []*zvkEvent, info *zvkInfo) {
 		if main >= len(evs) {
 			main = 0
 		}
@@ -1186,22 +1186,22 @@ func TestVerifKeyID(t *testing.T) {
 			}
 		}
 	}
-	var shimJobs []kShimJob
+	var shimJobs []zvkShimJob
 	flushShim := func() {
 		if len(shimJobs) == 0 {
 			return
 		}
-		evs := kExecShim(t, shimJobs)
+		evs := zvkExecShim(t, shimJobs)
 		for i, e := range evs {
 			emit(shimJobs[i].tid, e, shimJobs[i].info)
 		}
 		shimJobs = nil
 	}
-	run := func(tid string, cs kCase, info kInfo) {
+	run := func(tid string, cs zvkCase, info zvkInfo) {
 		in := info
 		switch info.Op {
 		case "enc":
-			emitAll(tid, 0, kExecEnc(cs, &in, nil, 3), &in)
+			emitAll(tid, 0, zvkExecEnc(cs, &in, nil, 3), &in)
 		case "dec":
 			main := 0
 			if cs.Kind == "dec" {
@@ -1211,17 +1211,17 @@ func TestVerifKeyID(t *testing.T) {
 			if cs.Kind == "free" {
 				calls = 2
 			}
-			emitAll(tid, main, kExecDec(cs, &in, calls), &in)
+			emitAll(tid, main, zvkExecDec(cs, &in, calls), &in)
 		case "cert":
-			emit(tid, kExecCert(cs, &in), &in)
+			emit(tid, zvkExecCert(cs, &in), &in)
 		case "prins":
 			main := 0
 			if cs.Kind == "prins" {
 				main = cs.V
 			}
-			emitAll(tid, main, kExecPrins(cs, &in), &in)
+			emitAll(tid, main, zvkExecPrins(cs, &in), &in)
 		case "shim":
-			shimJobs = append(shimJobs, kShimJob{cs, &in, tid})
+			shimJobs = append(shimJobs, zvkShimJob{cs, &in, tid})
 			if len(shimJobs) >= 48 {
 				flushShim()
 			}
@@ -1237,62 +1237,62 @@ func TestVerifKeyID(t *testing.T) {
 	// direction A
 	for i, c := range plan.Cases {
 		r := verifh.NewRand("keyid-case", int64(i))
-		run(fmt.Sprintf("a%d", i), c, kInstantiate(c, r))
+		run(fmt.Sprintf("a%d", i), c, zvkInstantiate(c, r))
 	}
 	flushShim()
 	// direction B
 	for i := 0; i < plan.Random["enc"]; i++ {
 		r := verifh.NewRand("keyid-enc", int64(i))
-		k := kRandAbs(r)
-		run(fmt.Sprintf("be%d", i), kFree, kInfo{Op: "enc", Kid: &k})
+		k := zvkRandAbs(r)
+		run(fmt.Sprintf("be%d", i), zvkFree, zvkInfo{Op: "enc", Kid: &k})
 	}
 	for i := 0; i < plan.Random["dec"]; i++ {
 		r := verifh.NewRand("keyid-dec", int64(i))
-		run(fmt.Sprintf("bd%d", i), kFree, kInfo{Op: "dec", Text: hex.EncodeToString([]byte(kRandText(r)))})
+		run(fmt.Sprintf("bd%d", i), zvkFree, zvkInfo{Op: "dec", Text: hex.EncodeToString([]byte(zvkRandText(r)))})
 	}
 	for i := 0; i < plan.Random["mseq"]; i++ {
 		// one KeyID object encoded again and again, overwritten with another value in between
 		r := verifh.NewRand("keyid-mseq", int64(i))
-		obj := &kidT{}
+		obj := &zvkKidT{}
 		for j := 0; j < 3; j++ {
-			k := kRandAbs(r)
+			k := zvkRandAbs(r)
 			if j > 0 && r.Intn(2) == 0 {
 				k.Ver = 1
 			}
-			in := kInfo{Op: "enc", Kid: &k}
-			emitAll(fmt.Sprintf("bm%d_%d", i, j), 0, kExecEnc(kFree, &in, obj, 2), &in)
+			in := zvkInfo{Op: "enc", Kid: &k}
+			emitAll(fmt.Sprintf("bm%d_%d", i, j), 0, zvkExecEnc(zvkFree, &in, obj, 2), &in)
 		}
 	}
 	for i := 0; i < plan.Random["conc"]; i++ {
 		r := verifh.NewRand("keyid-conc", int64(i))
-		in := kInfo{Op: "dec", Text: hex.EncodeToString([]byte(kRandText(r)))}
-		emitAll(fmt.Sprintf("bq%d", i), 0, kExecDecConc(kFree, &in, 4), &in)
+		in := zvkInfo{Op: "dec", Text: hex.EncodeToString([]byte(zvkRandText(r)))}
+		emitAll(fmt.Sprintf("bq%d", i), 0, zvkExecDecConc(zvkFree, &in, 4), &in)
 	}
-	randCert := func(r *mrand.Rand) kInfo {
-		text := kRandText(r)
+	randCert := func(r *mrand.Rand) zvkInfo {
+		text := zvkRandText(r)
 		if r.Intn(2) == 0 {
-			k := kRandAbs(r)
+			k := zvkRandAbs(r)
 			k.Ver = 1
-			text = kOwnText(&k)
+			text = zvkOwnText(&k)
 		}
-		crit, cn := kCrit([]string{"absent", "empty", "set"}[r.Intn(3)], r)
-		info := kInfo{Op: "cert", Text: hex.EncodeToString([]byte(text)), Crit: crit, CritNil: cn, Prins: kRandPrins(r), Signed: r.Intn(4) == 0}
+		crit, cn := zvkCrit([]string{"absent", "empty", "set"}[r.Intn(3)], r)
+		info := zvkInfo{Op: "cert", Text: hex.EncodeToString([]byte(text)), Crit: crit, CritNil: cn, Prins: zvkRandPrins(r), Signed: r.Intn(4) == 0}
 		info.PrNil = info.Prins == nil
 		return info
 	}
 	for i := 0; i < plan.Random["cert"]; i++ {
 		r := verifh.NewRand("keyid-cert", int64(i))
 		if r.Intn(200) == 0 {
-			run(fmt.Sprintf("bc%d", i), kFree, kInfo{Op: "cert", Nil: true, PrNil: true})
+			run(fmt.Sprintf("bc%d", i), zvkFree, zvkInfo{Op: "cert", Nil: true, PrNil: true})
 			continue
 		}
-		run(fmt.Sprintf("bc%d", i), kFree, randCert(r))
+		run(fmt.Sprintf("bc%d", i), zvkFree, randCert(r))
 	}
 	for i := 0; i < plan.Random["prins"]; i++ {
 		r := verifh.NewRand("keyid-prins", int64(i))
-		info := kInfo{Op: "prins", Ty: r.Intn(12) - 1, Prins: kRandPrins(r)}
+		info := zvkInfo{Op: "prins", Ty: r.Intn(12) - 1, Prins: zvkRandPrins(r)}
 		info.PrNil = info.Prins == nil
-		run(fmt.Sprintf("bp%d", i), kFree, info)
+		run(fmt.Sprintf("bp%d", i), zvkFree, info)
 	}
 	for i := 0; i < plan.Random["shim"]; i++ {
 		r := verifh.NewRand("keyid-shim", int64(i))
@@ -1300,9 +1300,9 @@ func TestVerifKeyID(t *testing.T) {
 		info.Op, info.Signed = "shim", true
 		info.Path = []string{"agent", "hard"}[r.Intn(2)]
 		if r.Intn(4) != 0 {
-			info.Cmt = hex.EncodeToString([]byte(kRandStr(r)))
+			info.Cmt = hex.EncodeToString([]byte(zvkRandStr(r)))
 		}
-		run(fmt.Sprintf("bs%d", i), kFree, info)
+		run(fmt.Sprintf("bs%d", i), zvkFree, info)
 	}
 	flushShim()
 	sum := map[string]interface{}{"events": tr.N - 1, "by_op": counts, "ok_events": okCount, "distinct": len(distinct), "cases": len(plan.Cases)}
